@@ -386,3 +386,104 @@ func (f *Frame) appendModel(instr ssa.Instruction, c *ssa.CallCommon, args []Val
 	e.setHeap(f.st, hn, store(h, reg, nr))
 	return e.define(name, mkSlice(reg, off, newLen, cp))
 }
+
+// ---------- bytes.Buffer (ghost length + contents per buffer object) ----------
+
+func bufHeaps(e *Enc, st *State) (ln Term, data Term) {
+	return e.heap(st, "HB_len", arraySort(SRef, SBV64)), e.heap(st, "HB_data", arraySort(SRef, arraySort(SBV64, SBV8)))
+}
+
+func effBuf(f *Frame, c *ssa.CallCommon, eff *effects) {
+	eff.names["HB_len"] = arraySort(SRef, SBV64)
+	eff.names["HB_data"] = arraySort(SRef, arraySort(SBV64, SBV8))
+}
+
+func (f *Frame) bufAppend(b Term, n Term, at func(i Term) Term) {
+	e := f.e
+	ln, data := bufHeaps(e, f.st)
+	old := e.define(f.name("bl"), sel(ln, b))
+	e.assume(implies(f.guard, and(sle(i64(0), old), sle(old, i64(1<<47)))))
+	row := sel(data, b)
+	var nr Term
+	if n.isC && n.c <= smallN {
+		nr = row
+		for k := uint64(0); k < n.c; k++ {
+			nr = store(nr, bvAdd(old, i64(int64(k))), at(i64(int64(k))))
+		}
+	} else {
+		nr = e.havoc(f.name("brow"), arraySort(SBV64, SBV8))
+		q := e.qvar()
+		qi := sym(q, SBV64)
+		body := eq(sel(nr, qi), ite(and(sle(old, qi), slt(qi, bvAdd(old, n))), at(bvSub(qi, old)), sel(row, qi)))
+		e.assume(Term{S: fmt.Sprintf("(forall ((%s (_ BitVec 64))) (! %s :pattern ((select %s %s))))", q, body.S, nr.S, q), Sort: SBool})
+	}
+	e.setHeap(f.st, "HB_data", store(data, b, nr))
+	e.setHeap(f.st, "HB_len", store(ln, b, bvAdd(old, n)))
+}
+
+func init() {
+	nilErr := sym("inil", SIface)
+	externModels["(*bytes.Buffer).Len"] = func(f *Frame, instr ssa.Instruction, c *ssa.CallCommon, args []Value, rt types.Type) Value {
+		ln, _ := bufHeaps(f.e, f.st)
+		r := f.e.define(f.name("blen"), sel(ln, args[0].T))
+		f.e.assume(implies(f.guard, and(sle(i64(0), r), sle(r, i64(1<<47)))))
+		return Value{T: r}
+	}
+	externEffects["(*bytes.Buffer).Len"] = effNone
+	externModels["(*bytes.Buffer).Grow"] = func(f *Frame, instr ssa.Instruction, c *ssa.CallCommon, args []Value, rt types.Type) Value {
+		f.check("callee-requires", instr, sle(i64(0), args[1].T), "Grow:n>=0")
+		return Value{}
+	}
+	externEffects["(*bytes.Buffer).Grow"] = effNone
+	externModels["(*bytes.Buffer).Reset"] = func(f *Frame, instr ssa.Instruction, c *ssa.CallCommon, args []Value, rt types.Type) Value {
+		ln, _ := bufHeaps(f.e, f.st)
+		f.e.setHeap(f.st, "HB_len", store(ln, args[0].T, i64(0)))
+		return Value{}
+	}
+	externEffects["(*bytes.Buffer).Reset"] = effBuf
+	externModels["(*bytes.Buffer).Truncate"] = func(f *Frame, instr ssa.Instruction, c *ssa.CallCommon, args []Value, rt types.Type) Value {
+		ln, _ := bufHeaps(f.e, f.st)
+		f.check("callee-requires", instr, and(sle(i64(0), args[1].T), sle(args[1].T, sel(ln, args[0].T))), "Truncate:0<=n<=Len")
+		f.e.setHeap(f.st, "HB_len", store(ln, args[0].T, args[1].T))
+		return Value{}
+	}
+	externEffects["(*bytes.Buffer).Truncate"] = effBuf
+	externModels["(*bytes.Buffer).Write"] = func(f *Frame, instr ssa.Instruction, c *ssa.CallCommon, args []Value, rt types.Type) Value {
+		e := f.e
+		p := args[1].T
+		_, _, h := byteHeap(e, f.st)
+		row := sel(h, sReg(p))
+		f.bufAppend(args[0].T, sLen(p), func(i Term) Term { return sel(row, bvAdd(sOff(p), i)) })
+		return Value{Tuple: []Value{{T: sLen(p)}, {T: nilErr}}}
+	}
+	externEffects["(*bytes.Buffer).Write"] = effBuf
+	externModels["(*bytes.Buffer).WriteString"] = func(f *Frame, instr ssa.Instruction, c *ssa.CallCommon, args []Value, rt types.Type) Value {
+		s := args[1].T
+		n := app(SBV64, "strlen", s)
+		f.e.assume(implies(f.guard, sle(i64(0), n)))
+		f.bufAppend(args[0].T, n, func(i Term) Term { return app(SBV8, "strat", s, i) })
+		return Value{Tuple: []Value{{T: n}, {T: nilErr}}}
+	}
+	externEffects["(*bytes.Buffer).WriteString"] = effBuf
+	externModels["(*bytes.Buffer).WriteByte"] = func(f *Frame, instr ssa.Instruction, c *ssa.CallCommon, args []Value, rt types.Type) Value {
+		b := args[1].T
+		f.bufAppend(args[0].T, i64(1), func(i Term) Term { return b })
+		return Value{T: nilErr}
+	}
+	externEffects["(*bytes.Buffer).WriteByte"] = effBuf
+	externModels["(*bytes.Buffer).Bytes"] = func(f *Frame, instr ssa.Instruction, c *ssa.CallCommon, args []Value, rt types.Type) Value {
+		e := f.e
+		ln, data := bufHeaps(e, f.st)
+		n := sel(ln, args[0].T)
+		e.assume(implies(f.guard, and(sle(i64(0), n), sle(n, i64(1<<47)))))
+		reg := e.alloc(f.st, f.name("bbytes"))
+		cp := e.havoc(f.name("bcap"), SBV64)
+		e.assume(and(sle(n, cp), sle(cp, i64(1<<47))))
+		hn, hs, h := byteHeap(e, f.st)
+		_ = hs
+		e.setHeap(f.st, hn, store(h, reg, sel(data, args[0].T)))
+		e.note("bytes.Buffer.Bytes(): returned slice modelled as a snapshot (later writes to the buffer are not visible through it)")
+		return Value{T: e.define(f.name("bb"), mkSlice(reg, i64(0), n, cp))}
+	}
+	externEffects["(*bytes.Buffer).Bytes"] = effBytes
+}
